@@ -32,9 +32,9 @@ CLAIMED = {
   technique="TLA+ spec (EntryOrder.tla refs machine) model-checked with TLC + replay + trace validation (EntryOrderTrace.tla)",
   design="5 C15"),
  "C08": dict(
-  text="ClusterPipeline.tla models every step of the pipeline (main dispatch with back-pressure counter, W workers taking from the spmc channel and sending buffers with tail offsets relative to the buffer, the single writer rebasing them and filling the address table by cluster id, channel closing and thread exits). TLC explores every schedule for W in 1..3, 4 clusters (5-6 in thorough) of every raw/compressed mix, MaxQueue 1 and 2W: QueueBound, WrittenOnce, NoOverlap, AddressPointsToOwnTail, AllAddressed, NothingLost, and termination under weak fairness. The real creator runs with 1, 2, 3 and 16 CPUs (1..16 in thorough; taskset: one worker on 1 and 2 CPUs through the two branches of the floor, 2 and 15 workers), 5..80 clusters, seeded delays in every Progress callback; ClusterPipelineTrace.tla checks the pipeline invariants on what was observed (callbacks + the cluster table found in the file by the independent decoder) and ContentPackTrace.tla that every address still resolves to its own bytes, counts are exact and the pack verifies.",
+  text="ClusterPipeline.tla models every step of the pipeline (main dispatch with back-pressure counter, W workers taking from the spmc channel and sending buffers with tail offsets relative to the buffer, the single writer rebasing them and filling the address table by cluster id, channel closing and thread exits). TLC explores every schedule for W in 1..3, 4 clusters (5-6 in thorough) of every raw/compressed mix, MaxQueue 1 and 2W: QueueBound, WrittenOnce, NoOverlap, AddressPointsToOwnTail, AllAddressed, NothingLost, and termination under weak fairness. The real creator runs with 1, 2, 3 and 16 CPUs (1..16 in thorough; taskset: one worker on 1 and 2 CPUs through the two branches of the floor, 2 and 15 workers), 5..80 clusters, seeded delays in every Progress callback; ClusterPipelineTrace.tla checks the pipeline invariants on what was observed (callbacks + the cluster table found in the file by the independent decoder) and ContentPackTrace.tla that every address still resolves to its own bytes, counts are exact and the pack verifies. A further set of runs uses the hooked build (--cfg jubako_verif): hooks at the steps of the pipeline (dispatch with the counter under its mutex, take, done, decrement, write with the rebased tail offset, address assignment, close, exits; logged before a send and after a receive) are validated by PipelineHooksTrace.tla, every event having to be an enabled step of ClusterPipeline's state with the observed values (QueueBound exact, WrittenOnce, Rebase, NoOverlap, IndexAssign, NothingLost, exits in order), and the cluster table the independent decoder finds in the file must hold the tail offsets the writer recorded.",
   note="Real-code schedules are sampled (seeded perturbation through the Progress callbacks), the protocol is exhaustive in the model. Callback timing (Handle after NewCluster, file order = Written order) is policy level and reported as drift only.",
-  technique="TLA+ spec (ClusterPipeline.tla, safety + liveness over all schedules) model-checked with TLC + trace validation of perturbed real runs (ClusterPipelineTrace.tla, ContentPackTrace.tla)",
+  technique="TLA+ spec (ClusterPipeline.tla, safety + liveness over all schedules) model-checked with TLC + trace validation of perturbed real runs (ClusterPipelineTrace.tla, ContentPackTrace.tla) and of guarded hooks at the pipeline's steps (PipelineHooksTrace.tla)",
   design="5 C08"),
  "C10": dict(
   text="Packaging.tla: packs are identities held by files (container or single), the manifest records locations, the reader resolves a pack inside the entry-point file first, then at its recorded location, identity deciding. TLC explores every packaging mode, concat of every subset of files, prefix embedding, removals / replacements / relocations (27k states) and checks SameLogicalContent, IdentityIsUuid, MissingIsReported, PresentStillReads (the pinned locator, modelled as PinnedLocate, violates them). Every configuration is produced with the real creator and tools (3 packagings, concat in every order and of every subset containing the entry point, prefixes of 1/63/64/4096 bytes in front of the entry file and in front of every pack file reached through its recorded location, stale files (truncated, empty, junk) at the recorded locations of packs that are inside the concatenated file, 0-2 extra content packs), dumped through reader::Container and compared item by item with the logical container; PackagingTrace.tla accepts only the resolutions Locate allows, an empty diff and a true check. An extra stage replays seeded end-to-end histories against the root module Jubako.tla (ReadIsLogicalOrReported: whatever the history, every pack reads as its logical content, is reported missing, or reports an error / fails the check).",
@@ -116,7 +116,7 @@ def main():
             "guard": "jubako_verif",
             "enable": "RUSTFLAGS='--cfg jubako_verif' (set by tools/common.py build(hooked=True); target dir harness/target-hooked)",
             "baseline_off_cmd": "cd /repo && cargo test --workspace --no-fail-fast --offline",
-            "source_commits": ["8da2a12"],
+            "source_commits": ["8da2a12", "bd60c31"],
             "add_only": True,
         },
         "engines": [
